@@ -17,21 +17,32 @@ theorem or_absorb {a m b : St} (h : sub m a) : a ||| (m ||| b) = a ||| b := by
 structure InvQ (c : Conf) : Prop where
   /-- a mandatory entry of the cache makes the list a list with required features -/
   cacheReq : ∀ e ∈ c.cache, e.req = true → c.lreq = true
-  /-- nothing is cached from an empty list -/
-  tot : (inParsing c.pc = true ∨ c.pc = .decide ∨ c.pc = .readList) → c.total = 0 → c.cache = []
+  /-- … and so does a mandatory feature that was skipped -/
+  skipReq : ∀ e ∈ c.skipped, e.req = true → c.lreq = true
+  /-- nothing is cached or skipped from an empty list -/
+  tot : (inParsing c.pc = true ∨ c.pc = .decide ∨ c.pc = .readList) → c.total = 0 →
+    c.cache = [] ∧ c.skipped = []
   /-- the mask of the feature just negotiated is already part of the state -/
   tailSub : ∀ m r, c.pc = .tail m r → sub m c.st
 
 theorem invQ_step (C : List Feature) (O : Oracle) (c : Conf) (h : InvQ c) : InvQ (step C O c) := by
-  obtain ⟨h1, h2, h3⟩ := h
+  obtain ⟨h1, h1s, h2, h3⟩ := h
   step_all
   all_goals (constructor <;> (try dsimp only))
   all_goals first
     | exact h1
+    | exact h1s
     | exact h2
     | exact h3
     | (intro _ _ h; cases h; done)
     | (intro m r hm; cases hm; exact sub_or_right _ _)
+    | (intro e he hr
+       simp only [List.mem_append, List.mem_singleton] at he
+       rcases he with he | rfl
+       · have := h1s e he hr
+         simp_all
+       · simp_all)
+    | (intro e he hr; simp [h1s e he hr]; done)
     | (intro e he hr
        have hh := put_mem he
        rcases hh with rfl | hh
@@ -42,22 +53,29 @@ theorem invQ_step (C : List Feature) (O : Oracle) (c : Conf) (h : InvQ c) : InvQ
     | (intro e he hr; simp [h1 e he hr]; done)
     | skip
 
-/-- no mandatory, negotiable feature of the cached list whose masks hold at `stb` is left
-un-negotiated -/
+/-- no mandatory, negotiable feature of the current list — cached, or skipped because its masks
+did not hold when the list was read — whose masks hold at `stb` is left un-negotiated -/
 def NoMandLeft (c : Conf) (stb : St) : Prop :=
-  ∀ e ∈ c.cache, e.req = true → e.f.negotiable = true → eligible stb e.f = true →
+  ∀ e ∈ c.cache ++ c.skipped, e.req = true → e.f.negotiable = true → eligible stb e.f = true →
     c.negd.contains e.f.name.ns = true
 
-theorem candidates_empty (c : Conf) (h : (candidates c).isEmpty = true) : NoMandLeft c c.st := by
-  intro e he _ h2 h3
+theorem candidates_empty (c : Conf) (h : (candidates c).isEmpty = true)
+    (hs : skippedOpen c = false) : NoMandLeft c c.st := by
+  intro e he hreq h2 h3
   cases hc : c.negd.contains e.f.name.ns
   · exfalso
-    have : e ∈ candidates c := by
-      unfold candidates
-      exact List.mem_filter.mpr ⟨he, by simp [h2, h3]; simpa using hc⟩
-    simp only [List.isEmpty_iff] at h
-    rw [h] at this
-    cases this
+    rcases List.mem_append.mp he with he | he
+    · have : e ∈ candidates c := by
+        unfold candidates
+        exact List.mem_filter.mpr ⟨he, by simp [h2, h3]; simpa using hc⟩
+      simp only [List.isEmpty_iff] at h
+      rw [h] at this
+      cases this
+    · unfold skippedOpen at hs
+      have := List.any_eq_false.mp hs e he
+      simp [hreq, h2, h3] at this
+      have hc' : ¬ e.f.name.ns ∈ c.negd := by simpa using hc
+      exact hc' this
   · rfl
 
 structure InvR (st0 : St) (c : Conf) : Prop where
@@ -71,7 +89,7 @@ theorem invR_step (C : List Feature) (O : Oracle) (st0 : St) (c : Conf) (hc : In
   obtain ⟨h1, h2⟩ := h
   have hp := hc.prov
   have ht := hc2.tail
-  obtain ⟨q1, q2, q3⟩ := hq
+  obtain ⟨q1, q1s, q2, q3⟩ := hq
   step_all
   all_goals (constructor <;> (try dsimp only))
   all_goals first
@@ -85,12 +103,15 @@ theorem invR_step (C : List Feature) (O : Oracle) (st0 : St) (c : Conf) (hc : In
        have := q2 (Or.inr (Or.inl ‹c.pc = _›)) (by simp_all)
        simp_all)
     | (intro m r hm hr; cases hm; right
-       exact ⟨rfl, rfl, candidates_empty c ‹_›⟩)
+       exact ⟨rfl, rfl, candidates_empty c ‹_› (by simp_all)⟩)
     | (intro m' r' hm hr; cases hm; right
        refine ⟨by simp_all, or_absorb (q3 _ _ ‹c.pc = _›), ?_⟩
        intro e he hreq
-       have := q1 e he hreq
-       simp_all)
+       rcases List.mem_append.mp he with he | he
+       · have := q1 e he hreq
+         simp_all
+       · have := q1s e he hreq
+         simp_all)
     | (intro m' r' hm hr; cases hm; left; exact ht _ _ ‹c.pc = _› hr)
     | (intro _ hr; exact h2 (Or.inl ‹c.pc = _›) hr)
     | (intro _ hr
